@@ -301,6 +301,15 @@ def ev(e, env, funcs=None):
             if all(ev(c, env2, funcs) for c in gen.ifs):
                 out.append(ev(e.elt, env2, funcs))
         return tuple(out)
+    if isinstance(e, ast.Attribute):
+        # attribute of a model object (an instance a rule put into the environment to stand for a run-time object)
+        try:
+            base = ev(e.value, env, funcs)
+        except NotClosed:
+            raise NotClosed('Attribute')
+        if getattr(base, '_sa_model', False) and hasattr(base, e.attr) and not callable(getattr(base, e.attr)):
+            return getattr(base, e.attr)
+        raise NotClosed('Attribute')
     if isinstance(e, ast.JoinedStr):
         out = []
         for v in e.values:
@@ -330,6 +339,17 @@ def ev(e, env, funcs=None):
             args = [ev(a, env, funcs) for a in e.args]
             kw = {k.arg: ev(k.value, env, funcs) for k in e.keywords}
             return e.func.value.value.format(*args, **kw)
+        if isinstance(e.func, ast.Attribute) and not e.keywords:
+            try:
+                recv_m = ev(e.func.value, env, funcs)
+            except NotClosed:
+                recv_m = None
+            if getattr(recv_m, '_sa_model', False) and callable(getattr(recv_m, e.func.attr, None)):
+                return getattr(recv_m, e.func.attr)(*[ev(a, env, funcs) for a in e.args])
+        if isinstance(e.func, ast.Name) is False and isinstance(e.func, ast.Attribute) and isinstance(e.func.value, ast.Name) \
+                and funcs and (e.func.value.id + '.' + e.func.attr) in funcs and e.func.value.id[:1].isupper() and not e.keywords:
+            # Class.method(obj) style with an oracle
+            return funcs[e.func.value.id + '.' + e.func.attr](*[ev(a, env, funcs) for a in e.args])
         if isinstance(e.func, ast.Attribute) and e.func.attr in _STR_METHODS and not e.keywords:
             try:
                 recv = ev(e.func.value, env, funcs)
